@@ -10,6 +10,81 @@ NOTE = ("Trusted: Coq 8.16.1 kernel + vm_compute; no axioms (Print Assumptions c
         "its ExtrOcamlBasic extraction vs the implementation built from the working tree); Rust harness, python generators.")
 
 CHECKS = {
+    "C12": dict(
+        category="other",
+        text="Machine-checked for ALL documents (Props/C12.v, 9 theorems) over the model of goto.rs: no handler panics on a "
+             "well-formed document (predicate nav_wf_b, validated on every analysed document), no identifier under the cursor or "
+             "no context => no location, predefined entities / int / anonymous array types / primitive-typed variables => no "
+             "location (never an error), definition = declaration, every returned range is the range of a token, implementation "
+             "agrees with declaration whenever it answers. The full functional statement (answer = the declaring occurrence under "
+             "SPL scoping) is stated and REFUTED for two shadowing shapes (known findings C12-proc-name-shadowed-by-own-local, "
+             "C12-type-use-shadowed-by-local: handlers resolve by name, locals first, ignoring the syntactic role). Otherwise it is "
+             "decided per input: model = server on every identifier occurrence x column, non-identifier tokens, gaps, outside "
+             "positions, malformed documents; oracle from bindings computed from the derivation (tools/splscope.py).",
+        design_ref="DESIGN.md sections 5 (C12) and 10.2",
+        technique="Coq proof of robustness and answer-shape theorems over a Gallina model of the handlers + correspondence through the binary + scoping oracle"),
+    "C13": dict(
+        category="other",
+        text="Machine-checked for ALL documents (Props/C13.v, 12 theorems) over the model of references.rs: no handler panics "
+             "under nav_wf_b, no identifier => null from all three requests, int is never renamed, every collected identifier "
+             "carries the cursor's name, prepareRename is null exactly when rename is and returns the identifier token's range, "
+             "every reference is one of rename's edits, each edit is the range of a token with the cursor's name. The full "
+             "statement (exactly the occurrences of one binding) is stated and refuted for four shapes recorded as known "
+             "findings (name-based resolution ignoring the syntactic role; rename offered on predefined procedures; a local "
+             "named int). Decided per input otherwise: model = server on all occurrences; oracle: occurrence partition from the "
+             "derivation, and the rename round trip (apply with an independent edit model, same diagnostics, same partition, "
+             "rename back restores the text).",
+        design_ref="DESIGN.md sections 5 (C13) and 10.2",
+        technique="Coq proof of robustness and answer-shape theorems over a Gallina model of the handlers + correspondence through the binary + binding/round-trip oracle"),
+    "C14": dict(
+        category="other",
+        text="Machine-checked for ALL documents (Props/C14.v, 10 theorems) over the models of hover.rs and signature_help.rs: "
+             "shape of every hover and signature-help answer (markdown = signature of the resolved table entry + doc comments over "
+             "the identifier's range; one parameter entry per parameter, activeParameter = commas before the cursor), no "
+             "identifier => no hover, no panic under the predicate cursor_pre (validated on every document). The hover half of "
+             "the full statement is refuted for the shadowing shapes (known finding C14-hover-local-before-global); the "
+             "signature-help half is stated, unproved. Decided per input: model = server at every occurrence/column and every "
+             "cursor position inside call argument lists; oracle from the derivation (binding, resolved types, doc comments).",
+        design_ref="DESIGN.md sections 5 (C14) and 10.2",
+        technique="Coq proof of answer-shape and robustness theorems over Gallina models of the handlers + correspondence through the binary + scoping oracle"),
+    "C15": dict(
+        category="other",
+        text="Machine-checked (Props/C15.v, 11 theorems) over the model of semantic_tokens.rs, for ALL documents satisfying the "
+             "executable predicate doc_wf_b: no slice panic and no u32 underflow (C15_no_panic), the decoded stream is the image "
+             "of an order-preserving subsequence of the document's lexical tokens with their positions and UTF-16 lengths "
+             "(C15_coincide), strictly increasing and disjoint (C15_increasing, C15_disjoint), keywords / numbers / comments "
+             "inside declarations carry exactly their lexical class. doc_wf_b is proved for lexer output (token half) and parser "
+             "output (ordering half) and reduced to a name condition for analysed documents; that remaining condition is "
+             "evaluated by the judge on every case. The binding-kind half is stated and refuted for identifiers in type position "
+             "shadowed by a local (known finding); comments behind the last declaration are not reported (known finding). "
+             "Decided per input: model = server; well-formedness oracle on all documents incl. malformed; classification oracle "
+             "from the derivation.",
+        design_ref="DESIGN.md sections 5 (C15) and 10.2",
+        technique="Coq proof of well-formedness of the delta-encoded stream over a Gallina model + correspondence through the binary + classification oracle"),
+    "C16": dict(
+        category="other",
+        text="Machine-checked for ALL documents and positions (Props/C16.v, 7 theorems) over a literal transcription of "
+             "completion.rs: the variables / procedures / types in an answer are either none or exactly the entries of the "
+             "enclosing procedure's own local table / the global table (C16_shape), no name local to another procedure is ever "
+             "proposed (C16_no_leak), outside every declaration exactly the declaration starters with the main snippet iff main "
+             "is not a procedure (C16_toplevel*), no panic under compl_wf_b. WHERE proposals are offered is decided by an "
+             "intricate position classifier: the full statement is refuted (C16_full_statement_refuted) and five position classes "
+             "on which the answer is null or incomplete are recorded as known findings (cursor directly behind a token, comment "
+             "line before the cursor, start of a branch/loop body, parenthesis left of `:=`, start of the text). Everything else is "
+             "decided per input: model = server; multiset oracle from the derivation for the four position classes.",
+        design_ref="DESIGN.md sections 5 (C16) and 10.2",
+        technique="Coq proof of scope theorems (shape, no leak, top level) over a Gallina transcription of the completion handler + correspondence through the binary + position-class oracle"),
+    "C17": dict(
+        category="other",
+        text="Machine-checked (Props/C17.v, 5 theorems) over the model of fold.rs: for EVERY abstract program of the grammar and "
+             "every text that lexes to its token kinds (every layout) the folding ranges are exactly one per procedure in source "
+             "order, from the line of the proc keyword (after doc comments) to the line of the closing brace (C17_valid, via the "
+             "C04 round trip); well-formedness (start <= end, inside the document, ordered, non-overlapping) for all documents "
+             "satisfying fold_pre, whose token half is a theorem (C06) and whose tree half is evaluated by the judge on every "
+             "case (hence `other`). Model = server on generated programs x layouts (doc comments, several procedures per line, "
+             "CRLF) and on the malformed stream.",
+        design_ref="DESIGN.md sections 5 (C17) and 10.2",
+        technique="Coq proof (composition with the C04 round trip) over a Gallina model of the folding handler + correspondence through the binary"),
     "C09": dict(
         category="other",
         text="Machine-checked (Props/C09.v) over the model of formatting.rs (Model/Format.v): the handler's single edit covers "
@@ -93,17 +168,21 @@ CHECKS = {
         technique="Coq proof (structural induction over the abstract syntax with explicit fuel bounds) over a Gallina model of the parser + model/implementation correspondence"),
     "C05": dict(
         category="other",
-        text="Machine-checked for ALL token lists ending with their only Eof (Props/C05.v, from Proofs/Parser*.v): error "
-             "recovery resynchronises at every proc/type keyword (one-to-one, order-preserving correspondence between "
-             "Type/Procedure declarations and the keywords), the declarations tile the token vector without gaps, and the parse "
-             "of a declaration depends only on the tokens up to the next proc/type/Eof (so no damage influences a declaration "
-             "in front of it). Not proved: the shift-invariance half (declarations behind the damage), table entries and "
-             "diagnostic positions - these are decided by an exhaustive-per-program single-token damage campaign on the "
-             "implementation (every non-keyword token of one declaration x delete / replace by 31 tokens / insert 31 tokens). "
-             "Two narrow classes of genuine containment failures are recorded as known findings (C05-closing-brace-stmt, "
-             "C05-trailing-comment); everything else is reported.",
-        design_ref="DESIGN.md section 5, C05",
-        technique="Coq proof of resynchronisation, tiling and locality over a Gallina model of the parser + exhaustive single-token damage campaign on the implementation"),
+        text="Machine-checked for ALL token lists ending with their only Eof (Props/C05.v, 13 theorems): error recovery "
+             "resynchronises at every proc/type keyword (C05_sync), the declarations tile the token vector (C05_spans), the parse "
+             "of a declaration depends only on the tokens up to the next proc/type/Eof (C05_locality), what follows a declaration "
+             "boundary is parsed independently of everything in front of it (C05_suffix_independent: identical subtrees, offsets "
+             "shifted), and hence containment: if the damaged region starts behind its declaration's keyword and ends at a "
+             "declaration boundary of both parses, every declaration in front is unchanged, every declaration behind is the same "
+             "subtree shifted by the length difference, and their syntax diagnostics are the same ones shifted (C05_containment, "
+             "C05_containment_between_keywords, C05_errors_contained). The first formulation of the full statement was too strong "
+             "and is refuted (C05_full_statement_refuted: a damage can end a declaration early or turn it into several); "
+             "C05_contained_in_one_declaration is the repaired statement. Whether a concrete single-token damage ends at a boundary, "
+             "the table entries and the diagnostic positions are decided by the exhaustive-per-program damage campaign on the "
+             "implementation. Known finding: C05-trailing-comment (comments in front of a deleted last token migrate to the next "
+             "declaration's doc).",
+        design_ref="DESIGN.md sections 5 (C05) and 10.2",
+        technique="Coq proof of resynchronisation, tiling, locality and shift-invariance (containment) over a Gallina model of the parser + exhaustive single-token damage campaign on the implementation"),
     "C01": dict(
         category="other",
         text="Machine-checked (Props/C01.v), for ALL documents and ALL edit histories: the text and the token stream of the "
@@ -176,10 +255,11 @@ CHECKS = {
     "C06": dict(
         category="proof",
         text="Theorems over all Unicode texts (Props/C06.v): the lexer model is total, its output tiles the text "
-             "(ordered, non-overlapping, on character boundaries, whitespace-only gaps, exactly one final Eof, lossless). The "
-             "conformance half (longest match, keywords as whole words, literal values, comments: Spec/LexSpec.v Lexeme / "
-             "Delimited) is specified and decided per input by the check's independent reference lexer; its theorems "
-             "(C06_conformance*) are cited here only once Props/C06.v contains them. The model is tied to "
+             "(ordered, non-overlapping, on character boundaries, whitespace-only gaps, exactly one final Eof, lossless), and "
+             "conformance with the declarative lexical grammar (Spec/LexSpec.v): every delimited lexeme is recognised with its kind "
+             "and value (C06_conformance_one: longest match, keywords only as whole words, decimal / hexadecimal / character "
+             "values, comments to the end of the line or of the text) and every separated lexeme sequence woven with whitespace "
+             "lexes to exactly those lexemes at their positions (C06_conformance, C06_conformance_place). The model is tied to "
              "spl_frontend::lexer::lex by exhaustive small-scope + random differential runs judged by the Coq VM and the "
              "extracted model; an implementation-side oracle searches for failing inputs.",
         design_ref="DESIGN.md section 5, C06",
